@@ -32,7 +32,6 @@ import (
 	"fmt"
 	"math"
 	"math/rand"
-	"net"
 	"sync"
 	"sync/atomic"
 	"time"
@@ -59,7 +58,9 @@ func (c *cowHostList) get() []*HostInfo {
 	return *l
 }
 
-// add will add a host if it not already in the list
+// add will add a host if it not already in the list. A host with the address of a
+// listed host but another host ID (a node replaced at the same address) takes the
+// place of the listed one.
 func (c *cowHostList) add(host *HostInfo) bool {
 	c.mu.Lock()
 	l := c.get()
@@ -70,8 +71,16 @@ func (c *cowHostList) add(host *HostInfo) bool {
 		newL := make([]*HostInfo, n+1)
 		for i := 0; i < n; i++ {
 			if host.Equal(l[i]) {
+				if l[i].HostID() == host.HostID() {
+					c.mu.Unlock()
+					return false
+				}
+				replaced := make([]*HostInfo, n)
+				copy(replaced, l)
+				replaced[i] = host
+				c.list.Store(&replaced)
 				c.mu.Unlock()
-				return false
+				return true
 			}
 			newL[i] = l[i]
 		}
@@ -84,7 +93,10 @@ func (c *cowHostList) add(host *HostInfo) bool {
 	return true
 }
 
-func (c *cowHostList) remove(ip net.IP) bool {
+// remove removes the host; an entry with the same address that belongs to another
+// host ID (the node that replaced it) is kept.
+func (c *cowHostList) remove(host *HostInfo) bool {
+	ip, hostID := host.ConnectAddress(), host.HostID()
 	c.mu.Lock()
 	l := c.get()
 	size := len(l)
@@ -96,7 +108,7 @@ func (c *cowHostList) remove(ip net.IP) bool {
 	found := false
 	newL := make([]*HostInfo, 0, size)
 	for i := 0; i < len(l); i++ {
-		if !l[i].ConnectAddress().Equal(ip) {
+		if !l[i].ConnectAddress().Equal(ip) || l[i].HostID() != hostID {
 			newL = append(newL, l[i])
 		} else {
 			found = true
@@ -353,7 +365,7 @@ func (r *roundRobinHostPolicy) AddHost(host *HostInfo) {
 }
 
 func (r *roundRobinHostPolicy) RemoveHost(host *HostInfo) {
-	r.hosts.remove(host.ConnectAddress())
+	r.hosts.remove(host)
 }
 
 func (r *roundRobinHostPolicy) HostUp(host *HostInfo) {
@@ -519,7 +531,7 @@ func (t *tokenAwareHostPolicy) AddHosts(hosts []*HostInfo) {
 
 func (t *tokenAwareHostPolicy) RemoveHost(host *HostInfo) {
 	t.mu.Lock()
-	if t.hosts.remove(host.ConnectAddress()) {
+	if t.hosts.remove(host) {
 		meta := t.getMetadataForUpdate()
 		meta.resetTokenRing(t.partitioner, t.hosts.get(), t.logger)
 		t.updateReplicas(meta, t.getKeyspaceName())
@@ -869,9 +881,9 @@ func (d *dcAwareRR) AddHost(host *HostInfo) {
 
 func (d *dcAwareRR) RemoveHost(host *HostInfo) {
 	if d.IsLocal(host) {
-		d.localHosts.remove(host.ConnectAddress())
+		d.localHosts.remove(host)
 	} else {
-		d.remoteHosts.remove(host.ConnectAddress())
+		d.remoteHosts.remove(host)
 	}
 }
 
@@ -976,7 +988,7 @@ func (d *rackAwareRR) AddHost(host *HostInfo) {
 
 func (d *rackAwareRR) RemoveHost(host *HostInfo) {
 	dist := d.HostTier(host)
-	d.hosts[dist].remove(host.ConnectAddress())
+	d.hosts[dist].remove(host)
 }
 
 func (d *rackAwareRR) HostUp(host *HostInfo)   { d.AddHost(host) }
